@@ -1,7 +1,11 @@
 /* SPDX-FileCopyrightText: © 2024 decompals */
 /* SPDX-License-Identifier: MIT */
 
-use std::{borrow::Cow, collections::HashMap, path::PathBuf};
+use std::{
+    borrow::Cow,
+    collections::{HashMap, HashSet},
+    path::PathBuf,
+};
 
 use serde::Deserialize;
 
@@ -119,6 +123,48 @@ impl Segment {
     pub fn dir_escaped(&self, rs: &RuntimeSettings) -> Result<EscapedPath, SlinkyError> {
         rs.escape_path(&self.dir)
     }
+}
+
+/// Returns a section of `sections_subgroups` that is (transitively) a sub-group of itself, if there is any.
+fn find_sections_subgroups_cycle(
+    sections_subgroups: &HashMap<String, Vec<String>>,
+) -> Option<String> {
+    fn visit<'a>(
+        sections_subgroups: &'a HashMap<String, Vec<String>>,
+        section: &'a str,
+        current_path: &mut Vec<&'a str>,
+        done: &mut HashSet<&'a str>,
+    ) -> Option<&'a str> {
+        if current_path.contains(&section) {
+            return Some(section);
+        }
+        if done.contains(section) {
+            return None;
+        }
+
+        if let Some(other_sections) = sections_subgroups.get(section) {
+            current_path.push(section);
+            for other in other_sections {
+                let found = visit(sections_subgroups, other, current_path, done);
+                if found.is_some() {
+                    return found;
+                }
+            }
+            current_path.pop();
+        }
+        done.insert(section);
+
+        None
+    }
+
+    // Sorted so the reported section does not depend on the iteration order of the map
+    let mut keys: Vec<&String> = sections_subgroups.keys().collect();
+    keys.sort();
+
+    let mut done = HashSet::new();
+    keys.into_iter()
+        .find_map(|k| visit(sections_subgroups, k, &mut Vec::new(), &mut done))
+        .map(|section| section.to_string())
 }
 
 #[derive(Deserialize, PartialEq, Debug)]
@@ -353,6 +399,11 @@ impl Serial for SegmentSerial {
         let sections_subgroups = self
             .sections_subgroups
             .get_non_null("sections_subgroups", || settings.sections_subgroups.clone())?;
+
+        // A section that ends up being a sub-group of itself would make the emission of that section recurse forever
+        if let Some(section) = find_sections_subgroups_cycle(&sections_subgroups) {
+            return Err(SlinkyError::CyclicSectionsSubgroups { section });
+        }
 
         // Pass down the current `keep_sections` to files that may not have defined it
         if keep_sections != KeepSections::Absent {
